@@ -76,11 +76,36 @@ theorem step_shape (cfg : Cfg) (codec : Codec) (crc : Checksum) (bs : Nat) (v : 
       obtain ⟨hdr, tail, hfile, hv, hn, hver⟩ := hF
       simp only at hfile
       have hl := encodeFileHeader_length hdr
-      have ho : openExisting file = some ⟨hdr, [], 0, 0, hdr.blockCount, hdr.entryCount⟩ := by
+      have hd : decodeFileHeader (file.take 64) = .ok hdr := by
+        rw [hfile, take_append_len _ _ 64 hl, decodeFileHeader_encode hdr hv]
+      have hds : hdr.dataStart = 64 + name.length := by
+        rcases hn with ⟨h3, hnl⟩ | ⟨h2, hnl⟩
+        · simp [FileHeader.dataStart, h3, hnl]
+        · subst hnl; simp [FileHeader.dataStart, h2]
+      -- whatever the walk decides, the cut keeps header and name and a prefix of the tail
+      have hcut : ∀ k, (encodeFileHeader hdr ++ (name ++ tail)).take (hdr.dataStart + k)
+          = encodeFileHeader hdr ++ (name ++ tail.take k) := by
+        intro k
+        rw [hds, ← List.append_assoc, List.take_append]
+        have : (encodeFileHeader hdr ++ name).length = 64 + name.length := by simp [hl]
+        rw [List.take_of_length_le (by omega), this]
+        have : 64 + name.length + k - (64 + name.length) = k := by omega
+        rw [this, List.append_assoc]
+      have ho : ∃ tail', openExisting cfg file = some (encodeFileHeader hdr ++ (name ++ tail'),
+          ⟨hdr, [], 0, 0, hdr.blockCount, hdr.entryCount⟩) := by
         unfold openExisting
-        rw [hfile, if_neg (by simp [hl]), take_append_len _ _ 64 hl, decodeFileHeader_encode hdr hv]
+        rw [if_neg (by rw [hfile]; simp [hl]), hd]
+        simp only
+        rw [if_neg (by rw [hfile, hds]; simp [hl])]
+        by_cases hc : cfg.openCutsTornTail = true
+        · simp only [hc, if_true]
+          rw [hfile, hcut]
+          exact ⟨_, rfl⟩
+        · simp only [hc]
+          exact ⟨tail, by rw [hfile]; rfl⟩
+      obtain ⟨tail', ho⟩ := ho
       simp only [step, ho]
-      refine ⟨⟨hdr, tail, hfile, hv, hn, hver⟩, ?_⟩
+      refine ⟨⟨hdr, tail', rfl, hv, hn, hver⟩, ?_⟩
       intro s hs
       simp at hs
       subst hs
@@ -182,15 +207,18 @@ theorem step_pending_le (cfg : Cfg) (codec : Codec) (crc : Checksum) (bs : Nat) 
     cases op with
     | reopen =>
       simp only [step]
-      cases hoe : openExisting file with
+      cases hoe : openExisting cfg file with
       | none => simp [St.pending]
-      | some s =>
+      | some r =>
+        obtain ⟨f', s⟩ := r
         unfold openExisting at hoe
         split at hoe
         · cases hoe
         · split at hoe
           · cases hoe
-          · cases hoe; simp [St.pending]
+          · split at hoe
+            · cases hoe
+            · cases hoe; simp [St.pending]
     | _ => simp [step, St.pending]
   | some s =>
     simp only [Option.isSome_some] at ho
